@@ -109,7 +109,8 @@ theorem decodeControlCore_image (c : Control) (rest : Bytes) (he : ∀ a ∈ c.a
   have h5 : ¬ ((avpsImage c.avps ++ rest).length + 1 + 1 + 1 + 1 + 1 + 1 + 1 + 1 + 1 + 1 < 10) := by omega
   simp only [bind_apply, len_apply, len_bytes, h1, h2, Bool.not_true, Bool.false_eq_true, if_false, List.length_cons,
     h5, readU16_cons, M.ite_apply, word16_be16, word16_of_nat (show 12 + (avpsImage c.avps).length < 65536 by omega), hlen]
-  rw [if_neg (by omega), if_neg (by simp; omega)]
+  rw [if_neg (by omega), if_neg (by simp; omega), subM_ok (by omega)]
+  simp only []
   have hsub := inSub_ok (ε' := List DErr) (s := avpsImage c.avps ++ rest) (greedy : M Bytes DErr (List Res))
     (n := 12 + (avpsImage c.avps).length - 12) (by simp)
   rw [hsub]
